@@ -179,11 +179,11 @@ def run_op(R, fdesc, f, op, mode, bulk, roots=(ROOT,), state=None):
     root = roots[0]
     try:
         if op == "walk":
-            res = ("ok", drive_agen(client.walk(OID(root), errors=mode), limit=500))
+            res = ("ok", drive_agen(client.walk(OID(root), errors=rig.lenient() if mode == "warn" else "".join(("str", "ict"))), limit=500))
         elif op == "pywalk":
-            res = ("ok", drive_agen(PyWrapper(client).walk(rig.oid_s(root), errors=mode), limit=500))
+            res = ("ok", drive_agen(PyWrapper(client).walk(rig.oid_s(root), errors=rig.lenient() if mode == "warn" else "".join(("str", "ict"))), limit=500))
         elif op == "multiwalk":
-            res = ("ok", drive_agen(client.multiwalk([OID(r) for r in roots], errors=mode), limit=500))
+            res = ("ok", drive_agen(client.multiwalk([OID(r) for r in roots], errors=rig.lenient() if mode == "warn" else "".join(("str", "ict"))), limit=500))
         elif op == "bulkwalk":
             res = ("ok", drive_agen(client.bulkwalk([OID(r) for r in roots], bulk_size=bulk), limit=500))
         elif op == "table":
